@@ -1527,6 +1527,14 @@ def bounded_by(t, X, depth=0):
         return bounded_by(dflt, X, depth + 1) and bounded_by(mapped, X, depth + 1)
     if t[0] == 'call' and term_callee(t) in ('std::option::Option::unwrap_or',) and len(t[2]) == 2:
         return bounded_by(t[2][1], X, depth + 1) and bounded_by(('field', t[2][0], 1, 0), X, depth + 1)
+    if t[0] == 'call' and t[2] and t[2][0][0] == 'closure' and t[2][0][1] == t[1]:
+        # a crate closure applied to known arguments, left uninlined at the depth limit: its value in the caller's terms
+        from .engine import current_ctx
+        ctx = current_ctx()
+        if ctx is not None and t[1] in ctx.facts.bodies:
+            rr = ctx.opa.run(t[1], list(t[2]))
+            if rr.ret is not None and rr.ret != t and rr.ret[0] != 'top':
+                return bounded_by(rr.ret, X, depth + 1)
     return False
 
 
